@@ -91,19 +91,49 @@ def run_program(res: Result, lab, prog, label):
     """drives one program on a Lab; returns True if it completed"""
     from vlib import chanlab
 
+    # channels are created concurrently (several threads calling newchannel / remote_exec on both sides at once), then the
+    # plain ones are introduced to the other side one by one over the control channel
+    n = len(prog["chans"])
+    made = [None] * n
+    cerr = []
+    cstart = threading.Barrier(n) if n > 1 else None
+
+    def create(ci, how):
+        try:
+            if cstart is not None:
+                cstart.wait(10)
+            if how == "newchannel_local":
+                made[ci] = ("L", lab.gw.newchannel())
+            elif how == "newchannel_remote":
+                made[ci] = ("R", lab.remote_gateway.newchannel())
+            else:
+                made[ci] = ("X", lab.pair_remote_exec())
+        except BaseException as e:  # noqa
+            cerr.append(f"{how}: {type(e).__name__}: {e}")
+
+    cths = [threading.Thread(target=create, args=(ci, ch["make"]), daemon=True) for ci, ch in enumerate(prog["chans"])]
+    for t in cths:
+        t.start()
+    for t in cths:
+        t.join(15)
+    if cerr or any(m is None for m in made):
+        res.violation("channel-creation-failed", f"{label}: {cerr[:2]}")
+        return False
     ends = []  # (lc, rc, finish)
-    for ci, ch in enumerate(prog["chans"]):
-        if ch["make"] == "newchannel_local":
-            lc, rc = lab.pair_newchannel_local()
-            fin = None
-        elif ch["make"] == "newchannel_remote":
-            lc, rc = lab.pair_newchannel_remote()
-            fin = None
+    for ci, (tag, obj) in enumerate(made):
+        if tag == "L":
+            lab.control_local.send(obj)
+            lc, rc, fin = obj, lab.control_remote.receive(10), None
+        elif tag == "R":
+            lab.control_remote.send(obj)
+            lc, rc, fin = lab.control_local.receive(10), obj, None
         else:
-            lc, rc, fin = lab.pair_remote_exec()
+            lc, rc, fin = obj
         if lc.id != rc.id:
             res.violation("channel-pair-id-mismatch", f"{label}: {lc.id} vs {rc.id}")
         ends.append((lc, rc, fin))
+    if len({lc.id for lc, _, _ in ends}) != len(ends) or len({id(lc) for lc, _, _ in ends}) != len(ends):
+        res.violation("distinct-channels-share-an-id", f"{label}: ids {[lc.id for lc, _, _ in ends]}")
     collectors = {}
     late = []
     senders = []
